@@ -234,6 +234,7 @@ func (p *parser) parseFunc() Node {
 	}
 	p.assertEnd()
 	p.advance()
+	p.assertEOL()
 	p.recordComment(block)
 	p.advancePastNL()
 	fd.Body = block
@@ -290,6 +291,7 @@ func (p *parser) parseEventHandler() Node {
 	e.Body = p.parseBlock()
 	p.assertEnd()
 	p.advance()
+	p.assertEOL()
 	p.recordComment(e.Body)
 	p.advancePastNL()
 	return e
@@ -895,6 +897,7 @@ func (p *parser) parseForStatement() Node {
 	forNode.Block = p.parseBlock()
 	p.assertEnd()
 	p.advance()
+	p.assertEOL()
 	p.recordComment(forNode.Block)
 	p.advancePastNL()
 	return forNode
@@ -940,6 +943,7 @@ func (p *parser) parseWhileStatement() Node {
 	p.recordCommentString(&while.ConditionalBlock, comment)
 	p.assertEnd()
 	p.advance()
+	p.assertEOL()
 	p.recordComment(while.ConditionalBlock.Block)
 	p.advancePastNL()
 	return while
@@ -982,6 +986,7 @@ func (p *parser) parseIfStatement() Node {
 	}
 	p.assertEnd()
 	p.advance()
+	p.assertEOL()
 	p.recordComment(ifStmt)
 	p.advancePastNL()
 	return ifStmt
